@@ -1,6 +1,7 @@
 package main
 
 import (
+	"reflect"
 	"context"
 	"errors"
 	"fmt"
@@ -127,10 +128,57 @@ func (*c14w) Impl(c Case) []string {
 	return out
 }
 
+// c14wROFuncs: ReadOnly over a function table that has every field set, with or without a NewError
+// hook: the eight mutating methods are still refused as unsupported and none of the table's mutating
+// functions is called; the ten read methods reach the table.
+func c14wROFuncs(withNewError bool) string {
+	b := newRecBackend()
+	if withNewError {
+		b.Funcs.NewError = func(ctx context.Context, methodName, repo string) error {
+			return fmt.Errorf("custom error for %s", methodName)
+		}
+	}
+	ro := ocifilter.ReadOnly(b.Funcs)
+	var bad []string
+	mutators := map[string]bool{"PushBlob": true, "PushBlobChunked": true, "PushBlobChunkedResume": true, "MountBlob": true, "PushManifest": true,
+		"DeleteBlob": true, "DeleteManifest": true, "DeleteTag": true}
+	it := reflect.TypeOf((*ociregistry.Interface)(nil)).Elem()
+	for i := 0; i < it.NumMethod(); i++ {
+		name := it.Method(i).Name
+		if name == "private" {
+			continue
+		}
+		b.Calls = nil
+		m, args, ok := wrapperArgs(ro, name, context.Background(), "a", "b")
+		if !ok {
+			continue
+		}
+		res := m.Call(args)
+		err := resultError(res)
+		if mutators[name] {
+			if len(b.Calls) != 0 {
+				bad = append(bad, name+":reached-the-table")
+			}
+			if !errors.Is(err, ociregistry.ErrUnsupported) {
+				bad = append(bad, name+":not-unsupported")
+			}
+		} else if len(b.Calls) != 1 || b.Calls[0].Method != name {
+			bad = append(bad, name+":not-forwarded")
+		}
+	}
+	if len(bad) > 0 {
+		return "rofuncs " + strings.Join(bad, ",")
+	}
+	return "rofuncs ok"
+}
+
 func c14wLine(st *c14wState, l string) string {
 	t := strings.Split(l, " ")
 	if len(t) < 2 || t[0] != "wrap" {
 		return "bad-op"
+	}
+	if t[1] == "rofuncs" && len(t) == 3 {
+		return c14wROFuncs(t[2] == "1")
 	}
 	if t[1] == "init" && len(t) == 3 && (t[2] == "ro" || t[2] == "imm") {
 		st.init(t[2])
@@ -262,6 +310,7 @@ func (*c14w) Gen(rng *RNG, tier string) []Case {
 		lines = append(lines, snap)
 		cases = append(cases, Case{Tag: kind, Lines: lines})
 	}
+	cases = append(cases, Case{Tag: "ro", Lines: []string{"wrap rofuncs 0", "wrap rofuncs 1"}})
 	for _, l := range []string{"wrap init rw", "wrap via frob x", "wrap snap zz", "wrap"} {
 		cases = append(cases, Case{Tag: "malformed", Lines: []string{l}})
 	}
@@ -434,6 +483,12 @@ func (*c14w) Oracle(c Case, impl []string) []Failure {
 		}
 		if got == "panic" {
 			fail("c14w-panic:"+t[1], "no_panic", "a result")
+			continue
+		}
+		if t[1] == "rofuncs" {
+			if got != "rofuncs ok" {
+				fail("c14w-ro-over-table", "readonly_mutators_unsupported", "rofuncs ok (mutators refused as unsupported without reaching the wrapped table, reads forwarded)")
+			}
 			continue
 		}
 		observe := func(key, dg, data string) {
